@@ -262,6 +262,7 @@ type Bytes struct {
 	Len   int         // for literals, else -1
 	Input bool
 	Shift int // a view b[lo:...] shares Cells with its parent and addresses them at +lo
+	NonNil bool // input bytes known to be non-nil (handed out by a modelled read)
 }
 
 func (b *Bytes) Get(off int) Vec {
@@ -302,6 +303,9 @@ type Interp struct {
 	// ConstTables: package-level array/slice/map literals of constants indexed by a constant yield
 	// the constant (instead of an uninterpreted table look-up)
 	ConstTables bool
+	// CallHook intercepts a call before it is resolved (stream methods standing for the wire):
+	// handled=true means the returned value (possibly nil after Fail) is the call's value.
+	CallHook func(f *Frame, call *ast.CallExpr) (val *Value, handled bool)
 }
 
 type frame struct {
@@ -489,6 +493,19 @@ func (ip *Interp) stmt(fr *frame, s ast.Stmt) {
 		if fr.fi.Decl.Type.Results != nil && len(fr.fi.Decl.Type.Results.List) == 1 {
 			rt = fr.info.TypeOf(fr.fi.Decl.Type.Results.List[0].Type)
 		}
+		if rt != nil {
+			if _, _, scalar := typeWidth(rt); !scalar && !isByteSlice(rt) {
+				// a result that is neither a number nor bytes (the stream itself, for chaining): evaluated
+				// for its effects when it is a call, not modelled as a value
+				if call, ok := ast.Unparen(v.Results[0]).(*ast.CallExpr); ok {
+					ip.expr(fr, call, nil)
+				}
+				if fr.why == "" {
+					fr.ret = &Value{V: Zero(1)}
+				}
+				return
+			}
+		}
 		fr.ret = ip.expr(fr, v.Results[0], rt)
 	case *ast.ExprStmt:
 		// calls for effect on byte slices (SetBytesShort(b, 1, x))
@@ -573,17 +590,29 @@ func (ip *Interp) stmt(fr *frame, s ast.Stmt) {
 			if k, ok := constant.Int64Val(constant.ToInt(tv.Value)); ok {
 				n = int(k)
 			}
-		} else if isByteSlice(fr.info.TypeOf(v.X)) && v.Value == nil {
+		}
+		var elems *Bytes
+		if n < 0 && (isByteSlice(fr.info.TypeOf(v.X)) || isByteArray(fr.info.TypeOf(v.X))) {
 			if bv := ip.expr(fr, v.X, nil); bv != nil && bv.B != nil && bv.B.Len >= 0 {
 				n = bv.B.Len
+				elems = bv.B
 			}
 		}
-		if n < 0 || n > 256 || v.Key == nil {
+		isBlank := func(e ast.Expr) bool {
+			id, ok := e.(*ast.Ident)
+			return e == nil || (ok && id.Name == "_")
+		}
+		if n < 0 || n > 256 || (isBlank(v.Key) && isBlank(v.Value)) || (!isBlank(v.Value) && elems == nil) {
 			ip.fail(fr, s, "statement %T outside the straight-line fragment", s)
 			return
 		}
 		for i := 0; i < n && fr.why == "" && fr.ret == nil; i++ {
-			ip.store(fr, v.Key, &Value{V: Const(uint64(i), 64), Sign: true})
+			if !isBlank(v.Key) {
+				ip.store(fr, v.Key, &Value{V: Const(uint64(i), 64), Sign: true})
+			}
+			if !isBlank(v.Value) {
+				ip.store(fr, v.Value, &Value{V: elems.Get(i)})
+			}
 			ip.block(fr, v.Body.List)
 		}
 	default:
@@ -800,6 +829,25 @@ func (ip *Interp) expr(fr *frame, e ast.Expr, want types.Type) *Value {
 			return &Value{B: &Bytes{Name: bv.B.Name, Cells: bv.B.Cells, Len: ln, Input: bv.B.Input, Shift: bv.B.Shift + lo}}
 		}
 	case *ast.BinaryExpr:
+		if v.Op == token.EQL || v.Op == token.NEQ {
+			// b != nil on bytes the interpreter itself produced (make, a literal, a modelled read)
+			for _, pr := range [][2]ast.Expr{{v.X, v.Y}, {v.Y, v.X}} {
+				if id, ok := ast.Unparen(pr[1]).(*ast.Ident); ok && id.Name == "nil" && isByteSlice(fr.info.TypeOf(pr[0])) {
+					bv := ip.expr(fr, pr[0], nil)
+					if bv == nil {
+						return nil
+					}
+					if bv.B != nil && bv.B.Len >= 0 && (!bv.B.Input || bv.B.NonNil) {
+						if v.Op == token.NEQ {
+							return &Value{V: Const(1, 1)}
+						}
+						return &Value{V: Const(0, 1)}
+					}
+					ip.fail(fr, e, "nil test of bytes of unknown origin")
+					return nil
+				}
+			}
+		}
 		l := ip.expr(fr, v.X, nil)
 		var r *Value
 		if v.Op == token.SHL || v.Op == token.SHR {
@@ -988,6 +1036,11 @@ func (ip *Interp) call(fr *frame, call *ast.CallExpr, want types.Type) *Value {
 		}
 		return &Value{V: Convert(x.V, x.Sign, w), Sign: sg}
 	}
+	if ip.CallHook != nil {
+		if val, handled := ip.CallHook(&Frame{fr}, call); handled {
+			return val
+		}
+	}
 	var id *ast.Ident
 	switch f := ast.Unparen(call.Fun).(type) {
 	case *ast.Ident:
@@ -1157,6 +1210,12 @@ func (ip *Interp) NewFrame(fi *core.FuncInfo) *Frame {
 func (f *Frame) Bind(obj types.Object, v *Value) { f.fr.env[obj] = v }
 func (f *Frame) Lookup(obj types.Object) *Value  { return f.fr.env[obj] }
 func (f *Frame) Err() string                     { return f.fr.why }
+
+// Fail records why the frame left the modelled fragment (first reason wins).
+func (ip *Interp) Fail(f *Frame, n ast.Node, msg string) { ip.fail(f.fr, n, "%s", msg) }
+
+// Info: the type information of the function the frame runs.
+func (f *Frame) Info() *types.Info { return f.fr.info }
 func (f *Frame) Returned() *Value                { return f.fr.ret }
 
 func (ip *Interp) Exec(f *Frame, s ast.Stmt) { ip.stmt(f.fr, s) }
